@@ -114,7 +114,7 @@ def gen_pair(draw, tier="quick"):
         k = draw(st.integers(0, n - 1))
         g = [0 if i == k else x for i, x in enumerate(g)]
         h = [0 if i == (k + 1) % n else x for i, x in enumerate(h)]
-    return {"g": g, "h": h, "sg": draw(C.scale()), "sh": draw(C.scale()), "kind": kind, "coll": draw(st.sampled_from([0, 0, 2, 3]))}
+    return {"g": g, "h": h, "sg": draw(C.scale()), "sh": draw(C.scale()), "kind": kind, "coll": draw(st.sampled_from([0, 0, 2, 3, 64, 70]))}
 
 
 def run_gen_pair(c):
@@ -124,13 +124,19 @@ def run_gen_pair(c):
         return run_pair(c)
     n = len(c["g"])
     k = c["coll"]
-    gs = [np.array(c["g"], float) * (1 + i) for i in range(k)]
+    gs = [np.array(c["g"], float) * (1 + i % 3) for i in range(k)]
     hs = [np.roll(np.array(c["h"], float), 0) * (1 if i % 2 == 0 else -2) for i in range(k)]
-    # vary the second member per position by adding multiples of g (keeps the pair non-proportional)
-    hs = [h + i * g for i, (g, h) in enumerate(zip(gs, hs))]
+    # vary the second member per position by adding multiples of g (keeps the pair non-proportional); collections of 64 and 70
+    # pairs cross the batch size at which the linear-algebra kernels switch their algorithm
+    hs = [h + (i % 5) * g for i, (g, h) in enumerate(zip(gs, hs))]
     ck = Checker()
     try:
-        if n == 3:
+        if k >= 64:
+            # for 64 or more matrices the determinant is evaluated by the explicit cofactor formula, whose rounding error reaches
+            # the absolute tolerance 1e-8 for the entries of several hundred that from_lines' normalisation produces for nearly
+            # proportional lines: large collections are built from the matrices g h^T + h g^T scaled to modulus < 1
+            Q = QuadricCollection(np.stack([pow2_normalise(np.outer(g, h) + np.outer(h, g)) for g, h in zip(gs, hs)]))
+        elif n == 3:
             Q = QuadricCollection([Conic.from_lines(Line(g), Line(h)) for g, h in zip(gs, hs)])
         else:
             Q = QuadricCollection([Quadric.from_planes(Plane(g), Plane(h)) for g, h in zip(gs, hs)])
@@ -361,7 +367,7 @@ LAWS = [
     Law("plane_pairs_lattice", None, run_pair, pair_nontrivial, lambda c: [], enumerate=plane_lattice_pairs, enum_shards=8,
         exhaustive=lambda tier: {"name": "pairs of vectors of {-2..2}^4 as plane pairs, stride sample", "size": 624 * 624 // (389 if tier == "quick" else 41), "exhaustive": False},
         rule="Quadric.from_planes(e,f): degenerate, components = {e,f}"),
-    Law("generated_pairs", lambda tier: gen_pair(tier), run_gen_pair, pair_nontrivial, lambda c: [f"n{len(c['g'])}", c["kind"], "coll" if c["coll"] else "single"],
+    Law("generated_pairs", lambda tier: gen_pair(tier), run_gen_pair, pair_nontrivial, lambda c: [f"n{len(c['g'])}", c["kind"], "coll" if c["coll"] else "single"] + (["collection>=64"] if c["coll"] >= 64 else []),
         {"quick": 2000, "thorough": 40000}, "generated line/plane pairs, all sign patterns, parallel / at infinity / zeros, collections", shard=300),
     Law("not_reducible", lambda tier: nondeg_case(tier), run_nondeg, lambda c: True, lambda c: [c["what"], f"d{c['d']}"], {"quick": 800, "thorough": 15000},
         "non-degenerate quadrics are not degenerate; rank >= 3 quadrics of 3-space raise NotReducible", shard=300),
